@@ -47,6 +47,12 @@ Update(w, a) ==
       ia == IdleRule(st, w.idleAt, w.clock)
   IN [w EXCEPT !.assign = a, !.status = st, !.idleAt = ia, !.store = [has |-> TRUE, assign |-> a, idleAt |-> ia]]
 
+(* An update whose callbacks fail (the generated configuration can not be written, Prometheus  *)
+(* refuses the reload): the request is answered with an error and nothing is persisted, but the  *)
+(* bookkeeping in memory has already taken the request over - that is what the shard reports     *)
+(* from then on, and what a restart forgets.                                                      *)
+UpdateRejected(w, a) == [Update(w, a) EXCEPT !.store = w.store]
+
 (* Completion of one proxied scrape of hash h (A.11).  ok: the real scrape succeeded;     *)
 (* kept / total: samples after / before metric relabeling.  A scrape of an unassigned      *)
 (* hash changes nothing.                                                                  *)
